@@ -293,6 +293,16 @@ def invariants(s: State, v: Verdict, trace, where):
     rebuilt = Acl(**acl.data()).line
     if rebuilt != text:
         v.fail(f"{where}:data-rebuilds-other-text", dict(detail, rebuilt=rebuilt))
+    want_tcam = 1
+    for it in s.flat:
+        if it["t"] == "ace":
+            n = 1
+            for side in ("src", "dst"):
+                if it["rec"][side]["k"] == "group":
+                    n *= len(it["rec"][side].get("m") or []) or 1
+            want_tcam += n
+    if acl.tcam_count() != want_tcam:
+        v.fail(f"{where}:tcam_count", dict(detail, got=acl.tcam_count(), want=want_tcam))
     if acl.group_by != s.group_by:
         v.fail(f"{where}:group_by-attribute", dict(detail, got=acl.group_by, want=s.group_by))
     # attached members
